@@ -83,9 +83,17 @@ def main(argv=None):
 
 if __name__ == "__main__":
     try:
-        sys.exit(main())
+        code = main()
+        try:
+            sys.stdout.flush()
+        except BrokenPipeError:
+            os.dup2(os.open(os.devnull, os.O_WRONLY), sys.stdout.fileno())
+        sys.exit(code)
     except SystemExit:
         raise
+    except BrokenPipeError:
+        os.dup2(os.open(os.devnull, os.O_WRONLY), sys.stdout.fileno())
+        sys.exit(1)
     except BaseException as e:  # never let a traceback look like a violation
         print(f"ANALYSIS-ERROR engine {type(e).__name__}: {e}")
         sys.exit(2)
